@@ -116,6 +116,23 @@ def finish(res: Result, seed: int = 0, stats: Optional[dict] = None, quiet=False
             known_hits.append((hit, o))
         else:
             violations.append(o)
+    # A violation located in a function that calls a helper which is not in the reference inventory and which the normaliser could not expand
+    # (a `return` inside a loop, a generator ...): the rules see only part of what that function does.  Reporting "the shape is wrong" there would be a
+    # guess; the honest verdict is that the analysis does not apply (exit 2), unless every such violation is reported by an interprocedural rule.
+    left = (stats or {}).get('normalisation', {}).get('calls_left_as_calls') or []
+    # only helpers that hide control flow of their caller (returns inside loops, generators, budget): a helper that is a plain function of its arguments
+    # (not expanded because one of its globals is not visible in the caller's module) leaves the caller's shape visible - what it does to a value is
+    # for the value-flow rules to judge
+    HIDING = ('a return', 'contains ', 'expansion budget', 'decorated', '*args', 'async', 'calls ')
+    opaque_callers = {c.get('caller') for c in left if isinstance(c, dict) and str(c.get('why', '')).startswith(HIDING)}
+    if violations and opaque_callers:
+        INTERPROCEDURAL = ('R-ATOM', 'R-EFF.', 'R-MEMO', 'R-OWN.', 'R-COPY.', 'R-TAINT.', 'R-ENC', 'R-TAB.')
+        opaque_modules = {c.split('::')[0] for c in opaque_callers if c}
+        blind = [o for o in violations if (o.where in opaque_callers or o.where in opaque_modules) and not o.rule.startswith(INTERPROCEDURAL)]
+        if blind and len(blind) == len(violations):
+            helpers = sorted({c.get('helper', '?').split('::')[-1] for c in left if c.get('caller') in opaque_callers})
+            raise AnalysisError(f"{blind[0].where}: calls {helpers} - new helper(s) the normaliser could not expand ({left[0].get('why')}); the shape rule "
+                                f"{blind[0].rule} sees only part of the function (idiom not understood)")
     out = []
     printed_kf = set()
     for e, o in known_hits:
